@@ -483,6 +483,8 @@ func rpExec(c Sx) (out Sx) {
 			switch o.Head() {
 			case "na":
 				opts = append(opts, rux.HandleMethodNotAllowed)
+			case "fb":
+				opts = append(opts, rux.HandleFallbackRoute)
 			case "strict":
 				opts = append(opts, rux.StrictLastSlash)
 			case "cache":
